@@ -107,6 +107,15 @@ func mfRenderItem(format, cls string, rest string) (string, *mfEntry) {
 	case "badrequest":
 		req := "THIS IS NOT AN HTTP REQUEST\r\nno colon here\r\n\r\n"
 		return fmt.Sprintf("%d x\n%s\n", len(req), req), nil
+	case "nouri":
+		return "5\nhello\n", nil
+	case "badurl":
+		if format == "uripost" {
+			return "5 http://[::1/x x\nhello\n", nil
+		}
+		return "http://[::1/x x\n", nil
+	case "badmethod":
+		return mfJSONItem(format, `{"tag":"x","uri":"/x","method":"G E T","host":"json.example.org"}`), nil
 	case "badjson":
 		return mfJSONItem(format, `{"tag":"x","uri":/x}`), nil
 	case "shape_array":
